@@ -11,6 +11,7 @@ import (
 	"crypto/cipher"
 	"encoding/hex"
 	"fmt"
+	"hash/fnv"
 	"strconv"
 	"strings"
 	"sync"
@@ -146,7 +147,7 @@ func impl(c core.Case) []string {
 	out := make([]string, 0, len(c.Lines))
 	hdr := core.Toks(c.Lines[0])
 	var hb *histBufs
-	if len(hdr) == 3 && hdr[2] == "hist" {
+	if len(hdr) == 3 && (hdr[2] == "hist" || hdr[2] == "arena") {
 		// A history case must fail or pass because of ITS OWN calls, so that a replay (and every
 		// candidate of the shrinker) behaves the same in a fresh process: it runs alone (no call
 		// of another worker in between) and starts with warm-up calls on throw-away arguments,
@@ -165,10 +166,21 @@ func impl(c core.Case) []string {
 		// dst from the SAME harness-owned backing arrays, overwritten in place between calls
 		out = append(out, "ok")
 		hb = newHistBufs()
+	} else if len(hdr) == 3 && hdr[2] == "arena" {
+		// arena mode: dst, plaintext/ciphertext, key, iv/nonce and additional data of every call
+		// are windows of ONE harness-owned arena (placement derived from the text of the line:
+		// both orders, adjacent or with gaps, with or without spare capacity), the rest of the
+		// arena holds canaries; after the call everything outside the dst window must be as before
+		out = append(out, "ok")
+		hb = newHistBufs()
+		hb.arena = make([]byte, 1<<18)
 	} else {
 		out = append(out, "bad-op")
 	}
-	for _, l := range c.Lines[1:] {
+	for li, l := range c.Lines[1:] {
+		if hb != nil {
+			hb.seed = lineSeed(l, li)
+		}
 		t := core.Toks(l)
 		if out[0] != "ok" {
 			out = append(out, "bad-op")
@@ -199,6 +211,114 @@ func warmUp() {
 type histBufs struct {
 	arr [4][]byte
 	dst []byte
+	// arena mode
+	arena []byte
+	seed  uint64
+}
+
+func lineSeed(l string, i int) uint64 {
+	h := fnv.New64a()
+	h.Write([]byte(l))
+	_ = i // the placement depends on the text of the line only, so that a shrunk case keeps it
+	return h.Sum64()
+}
+
+// place moves the arguments of one call into windows of the arena and returns the check to run
+// after the call.  dst and src are separate windows, or — inplace — the same window (both
+// start at its first byte, as in the documented layouts `dst = buf[:n]`, `src = buf[:m]`).
+// The order of the windows, the gaps between them (0 = adjacent) and whether a window is cut
+// with a capacity limit (`a[i:j:j]`) or left with the arena's spare capacity (`a[i:j]`, the way
+// callers usually write it) are drawn from the seed of the line.  Everything that is not a
+// window is canary bytes.  No-op outside arena mode.
+func (h *histBufs) place(inplace bool, dst, src *[]byte, others ...*[]byte) func() string {
+	if h == nil || h.arena == nil {
+		return func() string { return "" }
+	}
+	r := core.NewRand(h.seed)
+	type win struct {
+		p    *[]byte
+		n    int
+		off  int
+		name string
+	}
+	var ws []*win
+	if inplace {
+		n := len(*dst)
+		if len(*src) > n {
+			n = len(*src)
+		}
+		ws = append(ws, &win{p: nil, n: n, name: "dst/src"})
+	} else {
+		ws = append(ws, &win{p: dst, n: len(*dst), name: "dst"}, &win{p: src, n: len(*src), name: "src"})
+	}
+	names := []string{"key", "iv/nonce", "ad"}
+	for i, o := range others {
+		ws = append(ws, &win{p: o, n: len(*o), name: names[i%3]})
+	}
+	// order
+	for i := len(ws) - 1; i > 0; i-- {
+		j := r.Intn(i + 1)
+		ws[i], ws[j] = ws[j], ws[i]
+	}
+	gaps := []int{0, 0, 0, 1, 1, 3, 15, 16, 17, 48, 64}
+	off := []int{0, 0, 1, 16, 33}[r.Intn(5)]
+	for _, w := range ws {
+		off += gaps[r.Intn(len(gaps))]
+		w.off = off
+		off += w.n
+	}
+	total := off + []int{0, 1, 16, 64}[r.Intn(4)]
+	if total > len(h.arena) {
+		return func() string { return "" }
+	}
+	a := h.arena[:total]
+	if r.Chance(50) {
+		a = h.arena[:total:total] // the arena ends right behind the last window / canary
+	}
+	for i := range a {
+		a[i] = byte(0xc1 + i%59)
+	}
+	cut := func(w *win, n int) []byte {
+		if r.Chance(40) {
+			return a[w.off : w.off+n : w.off+n]
+		}
+		return a[w.off : w.off+n]
+	}
+	dstOff, dstLen := 0, len(*dst)
+	for _, w := range ws {
+		if w.p == nil { // shared window
+			// dst and src already alias one buffer: take the longer one's content
+			long := *dst
+			if len(*src) > len(long) {
+				long = *src
+			}
+			copy(a[w.off:], long)
+			dstOff = w.off
+			ld, ls := len(*dst), len(*src)
+			*dst, *src = cut(w, ld), cut(w, ls)
+			continue
+		}
+		copy(a[w.off:], *w.p)
+		if w.p == dst {
+			dstOff = w.off
+		}
+		*w.p = cut(w, w.n)
+	}
+	snap := append([]byte{}, a...)
+	return func() string {
+		for i := range a {
+			if a[i] != snap[i] && (i < dstOff || i >= dstOff+dstLen) {
+				where := "canary"
+				for _, w := range ws {
+					if i >= w.off && i < w.off+w.n {
+						where = w.name
+					}
+				}
+				return fmt.Sprintf("arena-modified offset=%d (%s) dst=[%d,%d)", i, where, dstOff, dstOff+dstLen)
+			}
+		}
+		return ""
+	}
 }
 
 func newHistBufs() *histBufs {
@@ -348,7 +468,14 @@ func step(t []string, hb *histBufs) string {
 				copy(buf, data)
 				dst, pt = buf, buf[:len(data)]
 			}
+			fin := func() string { return "" }
+			if d == 0 {
+				fin = hb.place(kind == "inplace", &dst, &pt, &key, &iv)
+			}
 			err := cryptz.AESCBCEncrypt(dst, pt, key, iv)
+			if v := fin(); v != "" {
+				return v
+			}
 			if err != nil {
 				return errClass(err)
 			}
@@ -384,7 +511,14 @@ func step(t []string, hb *histBufs) string {
 			ct = append([]byte{}, data...)
 			dst = ct
 		}
+		fin := func() string { return "" }
+		if d == 0 {
+			fin = hb.place(kind == "inplace", &dst, &ct, &key, &iv)
+		}
 		n, err := cryptz.AESCBCDecrypt(dst, ct, key, iv)
+		if v := fin(); v != "" {
+			return v
+		}
 		if err != nil {
 			return errClass(err)
 		}
@@ -423,7 +557,14 @@ func step(t []string, hb *histBufs) string {
 				copy(buf, data)
 				dst, pt = buf, buf[:len(data)]
 			}
+			fin := func() string { return "" }
+			if d == 0 {
+				fin = hb.place(kind == "inplace", &dst, &pt, &key, &nonce, &ad)
+			}
 			err := cryptz.AESGCMEncrypt(dst, pt, key, nonce, ad)
+			if v := fin(); v != "" {
+				return v
+			}
 			if err != nil {
 				return errClass(err)
 			}
@@ -446,7 +587,14 @@ func step(t []string, hb *histBufs) string {
 			// "dst could reuse encryptText memory, like encryptText[:AESGCMDecryptLen(encryptText)]"
 			dst = ct[:n]
 		}
+		fin := func() string { return "" }
+		if d == 0 {
+			fin = hb.place(kind == "inplace", &dst, &ct, &key, &nonce, &ad)
+		}
 		err := cryptz.AESGCMDecrypt(dst, ct, key, nonce, ad)
+		if v := fin(); v != "" {
+			return v
+		}
 		if err != nil {
 			return errClass(err)
 		}
@@ -514,6 +662,9 @@ func check(c core.Case, out []string) *core.Failure {
 				return bad("harness-off-contract-layout", "off-contract dst sizes belong in cases tagged offcontract")
 			}
 			continue // dst longer / shorter than documented: judged against the model only
+		}
+		if strings.HasPrefix(o, "arena-modified") {
+			return bad(t[0]+"-writes-outside-dst", "only the dst window may change: the plaintext/ciphertext, key, iv/nonce, additional data windows and the canaries around them must be left as they were")
 		}
 		if o == "input-modified" || o == "key-or-iv-modified" || strings.HasPrefix(o, "instantiations-differ") {
 			return bad(t[0]+"-side-effect", "inputs must not be modified / string and []byte instantiations agree")
